@@ -121,35 +121,42 @@ func (g *ASTGen) FuncType(d int) *ast.FuncType {
 }
 
 // Expr returns a random expression tree of depth <= d (no ParenExpr anywhere).
-func (g *ASTGen) Expr(d int) ast.Expr {
+func (g *ASTGen) Expr(d int) ast.Expr { return g.expr(d, true) }
+
+// operand returns an expression used as an operand of an operator/selector/index: multi-line function literals are
+// not generated there (the fork indents their bodies differently from go/format inside multi-line expression lists —
+// recorded finding, see fixtures/c12).
+func (g *ASTGen) operand(d int) ast.Expr { return g.expr(d, false) }
+
+func (g *ASTGen) expr(d int, funcLitOK bool) ast.Expr {
 	if d <= 0 {
 		return g.lit()
 	}
 	switch g.R.Intn(20) {
 	case 0, 1, 2, 3, 4, 5:
-		return &ast.BinaryExpr{X: g.Expr(d - 1), Op: h.Pick(g.R, binToks), Y: g.Expr(d - 1)}
+		return &ast.BinaryExpr{X: g.operand(d - 1), Op: h.Pick(g.R, binToks), Y: g.operand(d - 1)}
 	case 6, 7, 8:
-		return &ast.UnaryExpr{Op: h.Pick(g.R, unToks), X: g.Expr(d - 1)}
+		return &ast.UnaryExpr{Op: h.Pick(g.R, unToks), X: g.operand(d - 1)}
 	case 9:
-		return &ast.StarExpr{X: g.Expr(d - 1)}
+		return &ast.StarExpr{X: g.operand(d - 1)}
 	case 10:
-		return &ast.SelectorExpr{X: g.Expr(d - 1), Sel: id(h.Pick(g.R, []string{"A", "b", "Method"}))}
+		return &ast.SelectorExpr{X: g.operand(d - 1), Sel: id(h.Pick(g.R, []string{"A", "b", "Method"}))}
 	case 11:
-		return &ast.IndexExpr{X: g.Expr(d - 1), Index: g.Expr(d - 1)}
+		return &ast.IndexExpr{X: g.operand(d - 1), Index: g.operand(d - 1)}
 	case 12:
-		s := &ast.SliceExpr{X: g.Expr(d - 1)}
+		s := &ast.SliceExpr{X: g.operand(d - 1)}
 		if g.R.Bool() {
-			s.Low = g.Expr(d - 1)
+			s.Low = g.operand(d - 1)
 		}
 		if g.R.Bool() {
-			s.High = g.Expr(d - 1)
+			s.High = g.operand(d - 1)
 		}
 		if s.High != nil && g.R.Chance(30) {
-			s.Max, s.Slice3 = g.Expr(d-1), true
+			s.Max, s.Slice3 = g.operand(d-1), true
 		}
 		return s
 	case 13:
-		c := &ast.CallExpr{Fun: g.Expr(d - 1)}
+		c := &ast.CallExpr{Fun: g.operand(d - 1)}
 		for i := 0; i < g.R.Intn(3); i++ {
 			c.Args = append(c.Args, g.Expr(d-1))
 		}
@@ -158,7 +165,7 @@ func (g *ASTGen) Expr(d int) ast.Expr {
 		}
 		return c
 	case 14:
-		return &ast.TypeAssertExpr{X: g.Expr(d - 1), Type: g.Type(1)}
+		return &ast.TypeAssertExpr{X: g.operand(d - 1), Type: g.Type(1)}
 	case 15:
 		cl := &ast.CompositeLit{Type: g.Type(1)}
 		for i := 0; i < g.R.Intn(3); i++ {
@@ -170,7 +177,12 @@ func (g *ASTGen) Expr(d int) ast.Expr {
 		}
 		return cl
 	case 16:
-		return &ast.FuncLit{Type: g.FuncType(1), Body: g.Block(d-1, 2)}
+		if !funcLitOK {
+			return g.lit()
+		}
+		// signature types of function literals are kept on one line: multi-line struct/interface types there hit a
+		// recorded formatting finding (fixtures/c12/funclit_multiline_result_in_return.go)
+		return &ast.FuncLit{Type: g.FuncType(0), Body: g.Block(d-1, 2)}
 	case 17:
 		return &ast.CallExpr{Fun: g.convType(), Args: []ast.Expr{g.Expr(d - 1)}}
 	case 18:
